@@ -32,6 +32,7 @@ def Expr.noLayoutE : Expr → Prop
   | .sel _ _ _ _ b a => noLayout b ∧ noLayout a
   | .selOr _ _ _ _ _ _ _ b a => noLayout b ∧ noLayout a
   | .lam _ _ _ _ _ b a => noLayout b ∧ noLayout a
+  | .un _ _ _ _ b a => noLayout b ∧ noLayout a
 def allNoLayout : List Expr → Prop
   | [] => True
   | e :: rest => e.noLayoutE ∧ allNoLayout rest
@@ -65,6 +66,7 @@ theorem noLayoutE_before {e : Expr} (h : e.noLayoutE) : noLayout e.before := by
   | sel e ats g ab b a => exact h.1
   | selOr e ats g ab d dg db b a => exact h.1
   | lam n c g k bd b a => exact h.1
+  | un o e g bt b a => exact h.1
 theorem noLayoutE_after {e : Expr} (h : e.noLayoutE) : noLayout e.after := by
   cases e with
   | leaf k t b a => exact h.2
@@ -78,6 +80,7 @@ theorem noLayoutE_after {e : Expr} (h : e.noLayoutE) : noLayout e.after := by
   | sel e ats g ab b a => exact h.2
   | selOr e ats g ab d dg db b a => exact h.2
   | lam n c g k bd b a => exact h.2
+  | un o e g bt b a => exact h.2
 theorem noLayoutE_setBefore {e : Expr} (h : e.noLayoutE) {b : List Trivia} (hb : noLayout b) : (e.setBefore b).noLayoutE := by
   cases e with
   | leaf k t b' a => exact ⟨hb, h.2⟩
@@ -91,6 +94,7 @@ theorem noLayoutE_setBefore {e : Expr} (h : e.noLayoutE) {b : List Trivia} (hb :
   | sel e ats g ab b' a => exact ⟨hb, h.2⟩
   | selOr e ats g ab d dg db b' a => exact ⟨hb, h.2⟩
   | lam n c g k bd b' a => exact ⟨hb, h.2⟩
+  | un o e g bt b' a => exact ⟨hb, h.2⟩
 theorem noLayoutE_addAfter {e : Expr} (h : e.noLayoutE) {a : List Trivia} (ha : noLayout a) : (e.addAfter a).noLayoutE := by
   have haa := noLayout_append.mpr ⟨noLayoutE_after h, ha⟩
   cases e with
@@ -105,6 +109,7 @@ theorem noLayoutE_addAfter {e : Expr} (h : e.noLayoutE) {a : List Trivia} (ha : 
   | sel e ats g ab b a' => exact ⟨h.1, haa⟩
   | selOr e ats g ab d dg db b a' => exact ⟨h.1, haa⟩
   | lam n c g k bd b a' => exact ⟨h.1, haa⟩
+  | un o e g bt b a' => exact ⟨h.1, haa⟩
 
 theorem allNoLayout_append : ∀ {a b : List Expr}, allNoLayout a → allNoLayout b → allNoLayout (a ++ b)
   | [], _, _, hb => hb
@@ -289,6 +294,7 @@ theorem cst_noLayout : (c : Cst) → c.wf = true → containsNL c.flatten = fals
     | sel ee ats g' ab b' a' => simp only [Expr.before] at heb; simp only [Expr.after] at hea; subst heb; subst hea; exact ⟨noLayout_nil, noLayout_nil⟩
     | selOr ee ats g' ab d dg db b' a' => simp only [Expr.before] at heb; simp only [Expr.after] at hea; subst heb; subst hea; exact ⟨noLayout_nil, noLayout_nil⟩
     | lam nn cc g' kk bd b' a' => simp only [Expr.before] at heb; simp only [Expr.after] at hea; subst heb; subst hea; exact ⟨noLayout_nil, noLayout_nil⟩
+    | un oo ee g' bt b' a' => simp only [Expr.before] at heb; simp only [Expr.after] at hea; subst heb; subst hea; exact ⟨noLayout_nil, noLayout_nil⟩
     | list v m inn b' a' => simp only [Cst.parse] at hp; (repeat' split at hp) <;> first | cases hp | (injection hp with hp; (try split at hp) <;> cases hp)
     | set v m r inn b' a' => simp only [Cst.parse] at hp; (repeat' split at hp) <;> first | cases hp | (injection hp with hp; (try split at hp) <;> cases hp)
     | binding n v g' b' a' => simp only [Cst.parse] at hp; (repeat' split at hp) <;> first | cases hp | (injection hp with hp; (try split at hp) <;> cases hp)
@@ -311,6 +317,11 @@ theorem cst_noLayout : (c : Cst) → c.wf = true → containsNL c.flatten = fals
     cases hpb : b.parse with
     | error err => rw [hpb] at hp; cases hp
     | ok be => rw [hpb] at hp; injection hp with hp; subst hp; exact ⟨noLayout_nil, noLayout_nil⟩
+  | .un op c g e, _, _, ex, hp => by
+    simp only [Cst.parse] at hp
+    cases hpe : e.parse with
+    | error err => rw [hpe] at hp; cases hp
+    | ok ee => rw [hpe] at hp; injection hp with hp; subst hp; exact ⟨noLayout_nil, noLayout_nil⟩
 theorem items_noLayout : (its : Items) → ∀ (m : Mode) (cg : Text) (st st' : SeqSt), its.wf m cg = true →
     containsNL (its.flatten ++ cg) = false → its.parseSeq m st = .ok st' →
     allNoLayout st.items ∧ noLayout st.before → allNoLayout st'.items ∧ noLayout st'.before
@@ -403,6 +414,7 @@ theorem noLayoutE_effAfter {e : Expr} (h : e.noLayoutE) : noLayout (e.effAfter f
   | sel e ats g ab b a => exact h.2
   | selOr e ats g ab d dg db b a => exact h.2
   | lam n c g k bd b a => exact h.2
+  | un o e g bt b a => exact h.2
 
 theorem ok_effAfter {e : Expr} (h : e.ok) : TrivOk (e.effAfter false) := by
   cases e with
@@ -419,6 +431,7 @@ theorem ok_effAfter {e : Expr} (h : e.ok) : TrivOk (e.effAfter false) := by
   | sel e ats g ab b a => exact h.2.2.2.2.2
   | selOr e ats g ab d dg db b a => exact h.2.2.2.2.2.2.2
   | lam n c g k bd b a => exact h.2.2.2.2
+  | un o e g bt b a => exact h.2.2.2.2
 
 theorem allClosed_of_noLayout : ∀ {es : List Expr}, allOk es → allNoLayout es → allClosed es
   | [], _, _ => trivial
@@ -438,6 +451,7 @@ def Expr.flatClosed : Expr → Prop
   | .sel .. => True
   | .selOr .. => True
   | .lam .. => True
+  | .un .. => True
 def allFlatClosed : List Expr → Prop
   | [] => True
   | e :: rest => e.flatClosed ∧ allFlatClosed rest
@@ -600,6 +614,11 @@ theorem cst_flat : (c : Cst) → c.wf = true → ∀ (e : Expr), c.parse = .ok e
     cases hpb : b.parse with
     | error err => rw [hpb] at hp; cases hp
     | ok be => rw [hpb] at hp; injection hp with hp; subst hp; trivial
+  | .un op c g e, _, ex, hp => by
+    simp only [Cst.parse] at hp
+    cases hpe : e.parse with
+    | error err => rw [hpe] at hp; cases hp
+    | ok ee => rw [hpe] at hp; injection hp with hp; subst hp; trivial
 theorem items_flat : (its : Items) → ∀ (m : Mode) (cg : Text) (st st' : SeqSt), its.wf m cg = true →
     its.parseSeq m st = .ok st' → allFlatClosed st.items → allFlatClosed st'.items
   | .nil, m, cg, st, st', _, hp, h => by
@@ -686,6 +705,7 @@ theorem inlineClean_of_flat : (e : Expr) → e.beforeFlatB = true → e.flatClos
   | .sel .., h, _ => by simp [Expr.beforeFlatB] at h
   | .selOr .., h, _ => by simp [Expr.beforeFlatB] at h
   | .lam .., h, _ => by simp [Expr.beforeFlatB] at h
+  | .un .., h, _ => by simp [Expr.beforeFlatB] at h
 theorem allInlineClean_of_flat : (es : List Expr) → allBeforeFlatB es = true → allFlatClosed es → allInlineClean es
   | [], _, _ => trivial
   | e :: rest, h, hf => by
